@@ -421,6 +421,8 @@ func rulesC17(c *Ctx) {
 	c16BaseListeners(c)
 	// … and the breaker's delay function: the execution it is given carries the outcome that trips the breaker
 	c04Pairing(c)
+	// … and the cache listeners: OnResultCached carries the result that was stored
+	c11Post(c)
 }
 
 // c17Counters: who touches the four shared counters, and how.
@@ -626,6 +628,44 @@ func c17Flags(c *Ctx) {
 			c.Ok(c.fn(fn), c.P.FuncPos(fn), "recorded error if any, else the context's error")
 		}
 	}
+	// IsCanceled() and Canceled() speak about the execution's own context and nothing else: the stored cancel result is
+	// shared by every copy of the execution (an inner Timeout's stale result would make an outer scope look cancelled),
+	// and Canceled() must be the channel that IsCanceled() describes
+	for _, sp := range []struct{ m, doc string }{{"IsCanceled", "ctx.Err() != nil"}, {"Canceled", "ctx.Done()"}} {
+		fn := c.P.Func("failsafe.(*execution)." + sp.m)
+		if fn == nil {
+			c.Unresolved("failsafe.(*execution)."+sp.m, "not found")
+			continue
+		}
+		ev := NewEvaluator(c.P, EvalConfig{DecideReturns: sp.m == "IsCanceled"})
+		ts := ev.TS
+		ok := true
+		ps := ev.Run(fn)
+		e := ev.Param(fn, fn.Params[0].Name())
+		ctx := ev.LoadField(ev.NewState(), e, "ctx")
+		for _, p := range ps {
+			good := p.Exit == ExitReturn && len(p.Rets) == 1 && len(impure(p)) == 0 && ctx != nil
+			if good && sp.m == "IsCanceled" {
+				errs := eventsWhere(p, func(x *Event) bool { return isCall(x, "Err") && x.Recv == ctx })
+				good = len(errs) >= 1
+				if good {
+					want := p.State.Facts.Truth(ts, ts.Cmp("!=", errs[0].Res[0], ts.Nil(nil)))
+					good = want != triU && p.State.Facts.Truth(ts, p.Rets[0]) == want
+				}
+			}
+			if good && sp.m == "Canceled" {
+				r := p.Rets[0]
+				good = r.Op == "app" && hasPrefix(r.Aux, "Done@") && len(r.Args) == 1 && r.Args[0] == ctx
+			}
+			if !good {
+				ok = false
+				c.Fail(c.fn(fn), c.P.FuncPos(fn), sp.m+"() must be exactly "+sp.doc+" of the execution's own context", pathTrace(ev, p))
+			}
+		}
+		if ok && len(ps) > 0 {
+			c.Ok(c.fn(fn), c.P.FuncPos(fn), sp.doc)
+		}
+	}
 	for _, sp := range []struct{ m, field string }{{"ElapsedTime", "startTime"}, {"ElapsedAttemptTime", "attemptStartTime"}} {
 		fn := c.P.Func("failsafe.(*execution)." + sp.m)
 		if fn == nil {
@@ -752,18 +792,22 @@ func rulesC08(c *Ctx) {
 	c07Race(c)
 }
 
+// reviewedBlocking: the blocking operations that are not interruptible by a cancellation case of their own, each with
+// the reason it cannot strand a cancelled execution.
+var reviewedBlocking = map[string]string{
+	"hedgepolicy.(*executor).Apply#select":            "hedge wait on result channel / delay timer: attempt contexts derive from the parent (CopyFor* checked) and the parent is re-tested right after each wait (C09.loop)",
+	"hedgepolicy.(*executor).Apply#recv":              "final hedge wait on the result channel: same argument",
+	"hedgepolicy.(*executor).Apply#send":              "single send on a capacity-1 channel guarded by a once-only CAS (C09.attempt): cannot block",
+	"failsafe.(*executionResult).Get#recv":            "Get blocks until the execution is done, by contract",
+	"bulkhead.(*bulkhead).ReleasePermit#recv":         "receives a permit that the caller holds: cannot block when paired (C06.pairing)",
+	"ratelimiter.(*rateLimiter).AcquirePermits#sleep": "AcquirePermits(nil, …): no context given, documented uninterruptible",
+}
+
 // c08Blocking: inventory of every blocking operation in the library; each is either interruptible by the
 // execution's / caller's cancellation or on the reviewed list.
 func c08Blocking(c *Ctx) {
 	c.Rule("blocking-inventory")
-	reviewed := map[string]string{
-		"hedgepolicy.(*executor).Apply#select":            "hedge wait on result channel / delay timer: attempt contexts derive from the parent (CopyFor* checked) and the parent is re-tested right after each wait (C09.loop)",
-		"hedgepolicy.(*executor).Apply#recv":              "final hedge wait on the result channel: same argument",
-		"hedgepolicy.(*executor).Apply#send":              "single send on a capacity-1 channel guarded by a once-only CAS (C09.attempt): cannot block",
-		"failsafe.(*executionResult).Get#recv":            "Get blocks until the execution is done, by contract",
-		"bulkhead.(*bulkhead).ReleasePermit#recv":         "receives a permit that the caller holds: cannot block when paired (C06.pairing)",
-		"ratelimiter.(*rateLimiter).AcquirePermits#sleep": "AcquirePermits(nil, …): no context given, documented uninterruptible",
-	}
+	reviewed := reviewedBlocking
 	n := 0
 	ok := true
 	seen := map[string]bool{}
@@ -941,12 +985,26 @@ func isCancelChan(ix *Index, fn *ssa.Function, v ssa.Value, depth int) bool {
 			for _, b := range caller.Blocks {
 				for _, in := range b.Instrs {
 					cc, isCall := in.(ssa.CallInstruction)
-					if !isCall || calleeOf(cc.Common()) != fn {
+					if !isCall || origin(calleeOf(cc.Common())) != origin(fn) || calleeOf(cc.Common()) == nil {
 						continue
 					}
 					sites++
-					if pi >= len(cc.Common().Args) || !isCancelChan(ix, caller, cc.Common().Args[pi], depth+1) {
+					if pi >= len(cc.Common().Args) {
 						return false
+					}
+					if !isCancelChan(ix, caller, cc.Common().Args[pi], depth+1) {
+						// a wait handed to the helper by a function whose own wait of this kind is reviewed: the reviewed
+						// wait, moved into the helper
+						inReviewed := false
+						for rk := range reviewedBlocking {
+							i := strings.LastIndex(rk, "#")
+							if (rk[i+1:] == "select" || rk[i+1:] == "recv") && ix.WithinNames(caller, rk[:i]) {
+								inReviewed = true
+							}
+						}
+						if !inReviewed {
+							return false
+						}
 					}
 				}
 			}
